@@ -10,7 +10,7 @@ trap 'git -C /repo worktree remove --force "$WT" >/dev/null 2>&1; rm -rf "$WT"' 
 DEMO=$(ls "$D"/*_test.go | head -1)
 REL=$(head -1 "$DEMO" | sed 's#^// *##; s# .*##')
 PKG=$(dirname "$REL")
-RUN=$(grep -oE '^func (Test[A-Za-z0-9_]+)' "$DEMO" | head -1 | awk '{print $2}')
+RUN=${RUN:-$(grep -oE '^func (Test[A-Za-z0-9_]+)' "$DEMO" | head -1 | awk '{print $2}')}
 cp "$DEMO" "$WT/$REL"
 cd "$WT"
 echo "== demo WITHOUT change ($RUN in ./$PKG)"; go test -vet=off -count=1 -run "^$RUN\$" "./$PKG/" >/tmp/cm_$$.a 2>&1; A=$?; tail -2 /tmp/cm_$$.a | cut -c1-200
